@@ -261,7 +261,8 @@ func c01Record(tag string, small bool) gRec {
 	case 1:
 		r.feats = []gFeat{{key: "gene", locLines: []string{"1..3"}, quals: []gQual{{"gene", c01Value(vn)}}}}
 	case 2:
-		r.feats = []gFeat{{key: "misc_feature", locLines: []string{"2..4"}}, {key: "CDS", locLines: []string{"complement(1..3)"}, quals: []gQual{{"product", c01Value(vn)}}}}
+		// a source feature that is NOT the first one of the table stays where the file has it
+		r.feats = []gFeat{{key: "misc_feature", locLines: []string{"2..4"}}, {key: "source", locLines: []string{"complement(1..3)"}, quals: []gQual{{"product", c01Value(vn)}}}}
 	case 3:
 		r.feats = []gFeat{{key: "CDS", locLines: []string{"join(1..2,", "3..4)"}, quals: []gQual{{"note", c01Value(vn)}}}}
 	case 4:
